@@ -31,9 +31,10 @@ typedef struct {
   uint8_t side;  // 0 parent, 1 library-forked child before exec
   uint8_t fn;
   uint8_t flags;
-  uint8_t k;     // per-(side,fn) call index (saturating at 255)
+  uint8_t pad;
   int32_t op;    // index of the API call in progress (-1: none)
   int32_t err;
+  int32_t k;     // per-(side,fn) call index
   long a[3];
   long ret;
   int64_t vt0, vt1;
@@ -63,6 +64,7 @@ typedef struct {
   // faults (counters are per process; child side restarts at 0 after fork)
   int nfault;
   wfault fault[W_MAXFAULT];
+  volatile int faults_disabled;  // set by the harness once the start under test has returned
   // children forked by the library in this runner
   volatile int nchild;
   wchild child[W_MAXCHILD];
